@@ -648,6 +648,14 @@ func (r *RegisteredDecoys) register(darkDecoyAddr string, d *DecoyRegistration) 
 		}
 	}
 
+	if reg != d {
+		// A different object is tracked under this identifier: d expired while it was still
+		// being ingested and the registration has been received again since. That object is
+		// marked valid by its own ingest once its own checks (covert address, liveness) have
+		// passed - never on behalf of d.
+		return nil
+	}
+
 	if reg.Valid {
 		// Registration has already been shared with the detector
 		return nil
